@@ -845,8 +845,13 @@ def r104(ctx, rid="R-10.4"):
     else:
         ctx.ok(rid, L, "every iteration appends exactly one entry")
 
-    def move_index_shift(e):
-        """moves[idx + k] -> k"""
+    def move_index_shift(e, at_=None):
+        """moves[idx + k] -> k   (a local holding the move is looked through)"""
+        if isinstance(e, ast.Name):
+            e2, _ = deref(fl, e, at_ if at_ is not None else cfg.node_of(L))
+            if e2 is e:
+                return None
+            e = e2
         if isinstance(e, ast.Subscript) and ast.unparse(e.value) == "moves":
             s = e.slice
             if isinstance(s, ast.Name) and s.id == idx:
@@ -865,10 +870,10 @@ def r104(ctx, rid="R-10.4"):
             if isinstance(e, ast.Compare) and len(e.ops) == 1 and isinstance(e.ops[0], (ast.Eq, ast.NotEq)):
                 sides = [e.left, e.comparators[0]]
                 cst = [x for x in sides if isinstance(x, ast.Constant) and x.value == "wf"]
-                mv = [x for x in sides if move_index_shift(x) is not None]
+                mv = [x for x in sides if move_index_shift(x, at) is not None]
                 if cst and mv:
                     is_wf = t == isinstance(e.ops[0], ast.Eq)
-                    wf = (is_wf, move_index_shift(mv[0]), e)
+                    wf = (is_wf, move_index_shift(mv[0], at), e)
         if wf is None:
             ctx.bad(rid, c, "an entry of the weight vector is appended without a test of the ensemble's move (`moves[idx + 1] == \"wf\"`)", construct=short(c, 60))
             continue
@@ -893,7 +898,7 @@ def r104(ctx, rid="R-10.4"):
                     a, b = (e2.body, e2.orelse) if isnot else (e2.orelse, e2.body)
                     capok = isinstance(e2.test.ops[0], (ast.Is, ast.IsNot)) and ast.unparse(a) == "cap" and ast.unparse(b).replace(" ", "") == "interfaces[-1]"
                 okt = e0 == "interfaces[0]" and isinstance(e1, ast.Name) and e1.id == elem and capok
-            mvs = move_index_shift(v.args[2]) if not isinstance(v.args[2], ast.Constant) else (1 if v.args[2].value == "wf" else None)
+            mvs = move_index_shift(v.args[2], vat) if not isinstance(v.args[2], ast.Constant) else (1 if v.args[2].value == "wf" else None)
             if okt and mvs == 1 and ast.unparse(v.args[0]) == "path":
                 ctx.ok(rid, c, "wf ensemble: compute_weight(path, [interfaces[0], interface_i, cap if cap is not None else interfaces[-1]], moves[idx + 1])")
             else:
@@ -1217,6 +1222,7 @@ VARIANTS = [
     B("c10-doubling-factor", TIS, "            weight *= 2\n", "            weight *= 3\n", "R-10.4"),
     B("c10-count-from-outer-left", TIS, "            path, interfaces[1], interfaces[2]\n        )\n        weight = 1.0 * wf_weight", "            path, interfaces[0], interfaces[2]\n        )\n        weight = 1.0 * wf_weight", "R-10.4"),
     B("c10-minus-lambda-by-truthiness", TIS, "        if lambda_minus_one is not False:\n            return (1.0 if lambda_minus_one <= path_max else 0.0,)", "        if lambda_minus_one:\n            return (1.0 if lambda_minus_one <= path_max else 0.0,)", "R-10.4"),
+    K("c10-keep-move-in-a-local", TIS, '        if moves[idx + 1] == "wf":\n            intf_cap = cap if cap is not None else interfaces[-1]\n            intfs = [interfaces[0], intf_i, intf_cap]\n            cv.append(compute_weight(path, intfs, moves[idx + 1]))\n        else:\n            cv.append(1.0 if intf_i <= path_max else 0.0)', '        move = moves[idx + 1]\n        if move == "wf":\n            intf_cap = cap if cap is not None else interfaces[-1]\n            intfs = [interfaces[0], intf_i, intf_cap]\n            cv.append(compute_weight(path, intfs, move))\n        else:\n            cv.append(1.0 if path_max >= intf_i else 0.0)', why="form of the independent tis refactoring"),
     K("c10-keep-doubling-spelled-out", TIS, "            weight *= 2\n", "            weight = 2 * weight\n"),
     K("c10-keep-cap-default-inverted-ifexp", TIS, "            intf_cap = cap if cap is not None else interfaces[-1]", "            intf_cap = interfaces[-1] if cap is None else cap"),
     # R-10.5: one (left, right)
